@@ -325,8 +325,8 @@ impl Check for C07 {
         let max_n = if tier == Tier::Quick { 6 } else { 7 };
         dist_cells(max_n).len() as u64
             + match tier {
-                Tier::Quick => 400_000,
-                Tier::Thorough => 40_000_000,
+                Tier::Quick => 2_000_000,
+                Tier::Thorough => 300_000_000,
             }
     }
 
